@@ -3,6 +3,7 @@ mod astmodel;
 mod eval;
 mod g1;
 mod grammar;
+mod mir;
 mod report;
 mod rules;
 mod srcmodel;
@@ -24,7 +25,7 @@ fn main() {
             let id = args.get(2).cloned().unwrap_or_else(|| usage());
             let tier = std::env::var("VERIF_TIER").ok().filter(|t| t == "quick" || t == "thorough").or(args.get(3).cloned()).unwrap_or_else(|| "quick".into());
             let mut cx = report::Ctx::new(&id, &tier, repo, verif);
-            let known_ids = ["C01", "C02", "C04", "C05", "C06", "C11", "C16", "C10", "C12", "C13", "C14"];
+            let known_ids = ["C01", "C02", "C04", "C05", "C06", "C08", "C09", "C11", "C16", "C10", "C12", "C13", "C14"];
             if !known_ids.contains(&id.as_str()) {
                 eprintln!("no check for {}", id);
                 std::process::exit(2)
@@ -38,6 +39,8 @@ fn main() {
                     "C05" => rules::c05::run(&mut cx),
                     "C06" => rules::c06::run(&mut cx),
                     "C16" => rules::c16::run(&mut cx),
+                    "C08" => rules::c08::run(&mut cx),
+                    "C09" => rules::c09::run(&mut cx),
                     "C10" => rules::c10::run(&mut cx),
                     "C11" => rules::c11::run(&mut cx),
                     "C12" => rules::c12::run(&mut cx),
